@@ -15,6 +15,7 @@ pub enum Flavour {
   Checksums, // C05: lockers, tampering
   Mapping,   // C07: clean registries, many requirements
   Versions,  // C06: version selection at graph level
+  Closure,   // C01: mixed worlds, plus the judgement that nothing unreachable is present
   Mixed,
 }
 
@@ -24,7 +25,7 @@ pub fn cfg_for(f: Flavour) -> JGenCfg {
     Flavour::Checksums => JGenCfg { faults: 10, locker: 100, https_imports: 30, ..Default::default() },
     Flavour::Mapping => JGenCfg { faults: 3, locker: 20, weird_exports: 15, stale_meta: 10, ..Default::default() },
     Flavour::Versions => JGenCfg { faults: 3, locker: 10, prefer_cached: 50, stale_meta: 30, weird_exports: 2, ..Default::default() },
-    Flavour::Mixed => JGenCfg::default(),
+    Flavour::Mixed | Flavour::Closure => JGenCfg::default(),
   }
 }
 
@@ -52,6 +53,12 @@ pub fn describe(c: &JCase) -> serde_json::Value {
 
 /// Builds `c` with the real builder and abstracts world and result.
 pub fn case_of(c: &JCase, extra_direct: Vec<String>, extra_dist: Vec<(String, u64)>) -> Case {
+  case_of_judged(c, extra_direct, extra_dist, false)
+}
+
+/// `c01_judge`: the model also judges that no entry is unreachable from the roots; the observation
+/// carries the expected verdict.
+pub fn case_of_judged(c: &JCase, extra_direct: Vec<String>, extra_dist: Vec<(String, u64)>, c01_judge: bool) -> Case {
   let mut built = real_jbuild(c);
   let mut direct = extra_direct;
   // C03's own observations on the real result
@@ -83,7 +90,7 @@ pub fn case_of(c: &JCase, extra_direct: Vec<String>, extra_dist: Vec<(String, u6
   dist.push((format!("jsr_content_loads_{}", built.log.iter().filter(|l| l.cache_setting == "only" && !l.specifier.ends_with("meta.json")).count().min(4)), 1));
   Case {
     input: Sx::L(vec![Sx::A(JSRTAG), a.world_sx.clone(), Sx::L(vec![Sx::b(c.prefer_cached)]), Sx::atoms(c.roots.iter().map(|r| a.it.spec(r)))]),
-    obs: Sx::L(vec![obs]),
+    obs: if c01_judge { Sx::L(vec![obs, Sx::judge(true)]) } else { Sx::L(vec![obs]) },
     meta: serde_json::json!({"stream": "registry", "world": describe(c), "graph": serde_json::from_str::<serde_json::Value>(&json).unwrap_or(serde_json::Value::Null),
       "loader_calls": built.log.iter().map(|l| format!("{} {} {:?}", l.cache_setting, l.specifier, l.checksum)).collect::<Vec<_>>(),
       "locker_pkg_sets": built.lock_sets, "locker_remote_sets": built.remote_sets}),
@@ -96,7 +103,7 @@ pub fn case_of(c: &JCase, extra_direct: Vec<String>, extra_dist: Vec<(String, u6
 pub fn gen_case(seed: u64, k: u64, f: Flavour) -> Case {
   let mut rng = Rng::for_case(seed ^ 0x4a53_5200, k);
   let c = gen_jcase(&mut rng, &cfg_for(f));
-  case_of(&c, vec![], vec![])
+  case_of_judged(&c, vec![], vec![], f == Flavour::Closure)
 }
 
 pub fn run(cfg: &RunCfg) {
